@@ -306,7 +306,7 @@ def pep_friendly(vpattern):
 
 def gen_project(rng, mode="plain", syntaxes=None, allow_mixed=True, max_files=4, family=None, vcs="maybe",
                 allow_odd_paths=True, allow_glob=True, pep_any=False, force_pep=False, zero_bid=False, legacy=False, clock_patterns=True,
-                allow_symlinks=True, invalid_utf8=False, twin_pair=False):
+                allow_symlinks=True, invalid_utf8=False, twin_pair=False, wide_glob=False):
     while True:
         if legacy:
             pat = {"pattern": rng.choice(gp.LEGACY_PATTERNS), "family": "legacy", "unit": None}
@@ -390,9 +390,16 @@ def gen_project(rng, mode="plain", syntaxes=None, allow_mixed=True, max_files=4,
         gpats = gen_search_patterns(rng, tree, vpattern, pep_ok, rng.choice([1, 2]), marker, False, ini)
         marker += len(gpats)
         group = []
+        wide = wide_glob and rng.random() < 0.35
+        if wide:
+            # a monorepo: one glob reaches some eighty files whose names add up to far more than any one command line
+            # should be trusted with
+            gpaths = gpaths + ["packages/component_%03d_%s/version_information_%s.ver" % (i, "x" * 36, "y" * 24)
+                               for i in range(rng.randint(70, 90))]
         for gp_ in gpaths:
             gf = gen_file(rng, gp_, gpats, mode, rng.choice(["lf", "crlf"]))
             gf["glob_group"] = True
+            gf["wide_group"] = wide
             gf["group_patterns"] = [p["raw"] for p in gpats]
             files.append(gf)
             group.append(gf)
